@@ -273,7 +273,19 @@ pub fn generate(rng: &mut Rng, holder: usize, palette: &Palette) -> Content {
         weights.push(5); // 25 executable whose function parameter is annotated by an import
         weights.push(6); // 26 executable block with 2-4 independent faulty definitions
     }
-    match rng.weighted(&weights) {
+    // generative definitions (C09: every import occurrence is a fresh copy, a bound import is shared);
+    // appended after the optional executable variants so the arms below keep their numbers
+    let generative_base = weights.len();
+    weights.push(if is_signature_slot { 0 } else { 5 }); // a provider exporting values of its own `def` type
+    weights.push(if is_signature_slot { 0 } else { 7 }); // a consumer mixing / not mixing two occurrences
+    let choice = rng.weighted(&weights);
+    if choice == generative_base {
+        return generative_provider(literal);
+    }
+    if choice == generative_base + 1 {
+        return generative_consumer(rng, holder, palette);
+    }
+    match choice {
         | 0 => Content::plain(&format!("int{literal}"), &literal.to_string(), Class::Closed),
         | 1 => match rng.below(3) {
             | 0 => Content::plain("unit", "()", Class::Closed),
@@ -408,6 +420,56 @@ pub fn generate(rng: &mut Rng, holder: usize, palette: &Palette) -> Content {
             ),
             imports: vec![import_of(rng, holder, palette)],
             class: Class::Executable,
+        },
+    }
+}
+
+/// A closed provider whose exported pair mentions its own generative `def` type: a constructor
+/// value and the only function that accepts it.
+pub fn generative_provider(literal: usize) -> Content {
+    Content::plain(
+        &format!("gen-provider{literal}"),
+        &format!(
+            "begin\n  let Int = @[intrinsic(i64)] _ that\n  let Ret = @[intrinsic(ret)] _ that\n  def T =\n    data\n    | +Mk : Int\n    end\n  that\n  def mk : T = +Mk({literal}) that\n  def ! un (x : T) : Ret Int =\n    match x\n    | +Mk(n) => ret n\n    end\n  that\n  (mk, un)\nend\n"
+        ),
+        Class::Closed,
+    )
+}
+
+/// Consumers of [`generative_provider`]: two occurrences mixed (must be rejected when both
+/// name the provider, under any two spellings), one bound occurrence used twice (accepted),
+/// two occurrences kept apart (accepted), a mixed pair hidden one level down.
+fn generative_consumer(rng: &mut Rng, holder: usize, palette: &Palette) -> Content {
+    let first = import_of(rng, holder, palette);
+    let respelled = if first.slot < SLOTS.len() {
+        ImportRef { slot: first.slot, spelling: pick_spelling(rng, holder, first.slot, palette) }
+    } else {
+        first.clone()
+    };
+    match rng.below(5) {
+        | 0 | 1 => Content {
+            name: "gen-consumer-mixed".into(),
+            template: "let (mk1, _) = @[import({0})] _ in\nlet (_, un2) = @[import({1})] _ in\n! un2 mk1\n".into(),
+            imports: vec![first, respelled],
+            class: Class::Closed,
+        },
+        | 2 => Content {
+            name: "gen-consumer-shared".into(),
+            template: "let p = @[import({0})] _ in\nlet (mk1, _) = p in\nlet (_, un2) = p in\n! un2 mk1\n".into(),
+            imports: vec![first],
+            class: Class::Closed,
+        },
+        | 3 => Content {
+            name: "gen-consumer-apart".into(),
+            template: "let (mk1, un1) = @[import({0})] _ in\nlet (mk2, un2) = @[import({1})] _ in\ndo a <- ! un1 mk1;\ndo b <- ! un2 mk2;\nret (a, b)\n".into(),
+            imports: vec![first, respelled],
+            class: Class::Closed,
+        },
+        | _ => Content {
+            name: "gen-consumer-crossed".into(),
+            template: "let (mk1, un1) = @[import({0})] _ in\nlet (mk2, un2) = @[import({1})] _ in\ndo a <- ! un1 mk2;\ndo b <- ! un2 mk1;\nret (a, b)\n".into(),
+            imports: vec![first, respelled],
+            class: Class::Closed,
         },
     }
 }
